@@ -52,6 +52,8 @@ def fuzz_stage(R, res, plain_exe, seed, env, thorough):
     """coverage-guided search (libFuzzer, clang ASan+UBSan build of the current tree) over the same multi-entry harness: NJOBS independent fuzzers,
     each bounded by -runs (never by time), seeded with the frame corpus + one field-aware mutation of each frame; every artifact is re-run alone to
     obtain its report and goes through the usual violation keys."""
+    if os.environ.get('VERIF_NO_CLANG_STAGES'):      # seeded-change trials only (tools/matrix.py)
+        return dict(jobs=0, runs_per_job=0, seed_inputs=0, executions=0, artifacts=0, skipped='VERIF_NO_CLANG_STAGES')
     fexe = build.build_harness(*HARNESSES['h_c03fuzz'][:2], **HARNESSES['h_c03fuzz'][2])
     fd = os.path.join(R.tmp, 'fuzz'); seeds = os.path.join(fd, 'seeds'); art = os.path.join(fd, 'art'); os.makedirs(seeds); os.makedirs(art)
     e = dict(os.environ, VERIF_REPO=build.REPO); e.update(env)
